@@ -36,10 +36,15 @@ def emit_behaviours(ctx, tier):
         e = tlc.run("TtnHeap", cfg, mode="emit", timeout=3000)
         ctx.add_tlc(e, f"emit histories depth {d}")
         out.append(e["emitted"])
+    cfg = tlc.make_cfg(constants=consts(2), spec="Spec", invariants=["EmitDeriveMutate"])
+    e = tlc.run("TtnHeap", cfg, mode="emit", timeout=3000)
+    ctx.add_tlc(e, "emit every derive-then-mutate history of depth 2")
+    derive_mutate = e["emitted"]
     cfg = tlc.make_cfg(constants=consts(4), spec="Spec", invariants=["EmitLeafSim"])
     e = tlc.run("TtnHeap", cfg, mode="simulate", simulate=300 if tier == "quick" else 3000, depth=6, seed=ctx.seed + 5, workers=1, timeout=3000)
     ctx.add_tlc(e, "simulate histories depth 4")
     out.append(e["emitted"])
+    out.append(derive_mutate)
     return out
 
 
@@ -112,6 +117,8 @@ def run(ctx, owned=OWNED):
         sets = [0 if d else n for n, d in zip(t["nsets"], t["dummy"])]
         tcase = trees.make_case(t["par"], sets, fams[ti % len(fams)], variant=ti % 3)
         picks = rnd.sample(beh[0], min(per[0], len(beh[0]))) + rnd.sample(beh[1], min(per[1], len(beh[1]))) + rnd.sample(beh[2], min(per[2], len(beh[2])))
+        if ti % max(1, len(trs) // 4) == 1:
+            picks = picks + list(beh[3])          # every derive-then-mutate history on ~4 of the trees
         for case in picks:
             jobs.append((jid, tcase, case))
             jid += 1
